@@ -304,7 +304,7 @@ class Ctx:
             if key in seen_keys:
                 continue
             seen_keys.add(key)
-            if len(replay_paths) >= 10:
+            if len(replay_paths) >= 30:
                 continue
             REPLAY_DIR.mkdir(exist_ok=True)
             path = REPLAY_DIR / f"{self.prop}-{hashlib.sha1(str(key).encode()).hexdigest()[:10]}.json"
